@@ -477,7 +477,11 @@ end
 
 /-! ### `from_python_object` -/
 
-def isAscii (s : String) : Bool := s.toList.all fun ch => ch.toNat < 128
+/-- the two assertions of `StringType.from_value`: `len(value) == len(value.encode())` (every character is ASCII) and
+`all(c == '\n' or ' ' <= c <= '~' for c in value)` (a newline or a printable character; the second one came with
+45078c3, before it a tab or 0x01 passed) -/
+def isAscii (s : String) : Bool :=
+  (s.toList.all fun ch => ch.toNat < 128) && (s.toList.all fun ch => ch == '\n' || (' ' ≤ ch && ch ≤ '~'))
 
 def scalarOfPy : Scalar → PyObj → Except Err Val
   | .unit, .none | .unit, .unit => .ok .unit
